@@ -3,7 +3,7 @@
 Goal: pc => A == B where A, B are polynomials over the reals in atoms (constants, applications of uninterpreted
 functions, anything else opaque) and pc contains hypotheses h_i == 0 of two shapes:
     (trig)   c*c + s*s == 1          (the axiom instance that `trig` adds for every angle)
-    (def)    v == e                  (v an uninterpreted constant that does not occur in e)
+    (def)    v == e                  (v an uninterpreted constant or application f(...) that does not occur in e)
 The module searches cofactors q_i with   A - B  ==  sum_i q_i * h_i   identically, by rewriting s^2 -> 1 - c^2 and
 v -> e (normal forms are unique for the trig rules: they are a Groebner basis for any order with s > c).
 What is trusted is small and stated in the evidence:
@@ -166,7 +166,9 @@ def collect_rules(ctx, pc):
                     trig.append((y.get_id(), x.get_id(), l - r))
                     continue
             # (def)  v == e   with v an uninterpreted constant
-            if z3.is_const(l) and l.decl().kind() == z3.Z3_OP_UNINTERPRETED and _num(l) is None:
+            if z3.is_app(l) and l.decl().kind() == z3.Z3_OP_UNINTERPRETED and _num(l) is None \
+                    and l.sort() != z3.BoolSort():
+                # v == e with v an uninterpreted constant or an application f(args) used as an atom
                 try:
                     pe = to_poly(ctx, r)
                 except NotPoly:
